@@ -285,7 +285,7 @@ func init() {
 		}
 		return out
 	}
-	fw.Register(&fw.Prop{
+	register(&fw.Prop{
 		ID: "C12",
 		Rule: fmt.Sprintf("programs of a function line, 'BEGIN {', a preset line, m lines before and n lines after one fault line, and '}', the other lines drawn from {blank, a comment with non-ASCII text, a string with a non-ASCII character, a tab-indented statement, a statement}, with LF and CRLF line ends; %d fault lines: ", nf) +
 			"an illegal character, a stray UTF-8 continuation byte and a stray 0x80 at every token boundary of a host line, non-ASCII characters used as identifiers, unexpected tokens, return / break out of place, assignment to a literal, and 21 single-line runtime faults each after 0-3 two-byte characters; " +
